@@ -131,6 +131,11 @@ func (lm *ListenerMux) Stop() {
 		_ = ab.b.Close()
 	}
 	close(lm.chClose)
+	// the accepting goroutines of the ChanListeners may already have left their loops.
+	for _, ab := range lm.listeners {
+		ab.a.drain()
+		ab.b.drain()
+	}
 }
 
 // DecreaseOnlineA decreases the online num of ChanListener A.
